@@ -11,6 +11,7 @@ CONSTANTS
   MaxTextLines = 1
   MaxLines = 1000
   MaxDepth = 5
+  SimTextLines = 3
   Alphabet = {10, 13, 91, 93, 61, 59, 65, 107}
 INVARIANTS TextInv RoundTrip CalcEqualsGen GenRespectsCap EnumIsFilter EmitInv
 CHECK_DEADLOCK FALSE
